@@ -83,6 +83,15 @@ def run {T : Type} (g : Graph) (f : T → Nat → T) :
     if nodes.isEmpty then run g f fuel rest (result ++ [acc])
     else run g f fuel ((nodes.map fun v => (f acc v, succs g v)).reverse ++ rest) result
 
+/-- number of loop iterations the machine spends on a stack entry whose nodes are at height ≤ `d`
+(used only to state a sufficient fuel) -/
+def cost (g : Graph) : Nat → List Nat → Nat
+  | 0, _ => 1
+  | d + 1, nodes => 1 + (nodes.map fun v => cost g d (succs g v)).sum
+
+/-- fuel that provably suffices for `path_fold` on a built graph (`Props.C29_pathFold_terminates`) -/
+def fuelBound (g : Graph) : Nat := cost g g.instrs.length (sources g) + 1
+
 /-- `path_fold(initial_value, f)` -/
 def pathFold {T : Type} (g : Graph) (f : T → Nat → T) (init : T) (fuel : Nat) : Option (List T) :=
   run g f fuel [(init, sources g)] []
